@@ -135,6 +135,69 @@ Section ProjModel.
         end
     end.
 
+  (* ---------------- the iterator range [begin, end) ---------------- *)
+  (* [begin, end) is a sequence of SAMPLE IDS (any sub-range, offset block or permutation of the
+     caller's data set, not necessarily 0..n-1); every loop above is
+        for (iter = begin; iter != end; ++iter) { callback.vector( *iter, cur); ... row (iter - begin) ... }
+     so the k-th sample processed is feature vector number ids[k] of the data set `Xall`.  An id
+     outside the data set is an out-of-bounds read of the caller's storage: distinguished result
+     `PDim 5 id (length Xall)`, never a default vector. *)
+  Fixpoint gather_exec (Xall : list (list F)) (ids : list nat) : pres (list (list F)) :=
+    match ids with
+    | [] => POk []
+    | id :: r =>
+        match nth_error Xall id with
+        | None => PDim 5 id (length Xall)
+        | Some x =>
+            match gather_exec Xall r with
+            | POk rows => POk (x :: rows)
+            | PDim a b c => PDim a b c
+            end
+        end
+    end.
+
+  Definition compute_mean_range (D : nat) (Xall : list (list F)) (ids : list nat) : pres (list F) :=
+    match gather_exec Xall ids with
+    | POk Xs => compute_mean_exec D Xs
+    | PDim a b c => PDim a b c
+    end.
+
+  Definition project_range (D d : nat) (P : list (list F)) (m : list F)
+             (Xall : list (list F)) (ids : list nat) : pres (list (list F)) :=
+    match gather_exec Xall ids with
+    | POk Xs => project_exec D d P m Xs
+    | PDim a b c => PDim a b c
+    end.
+
+  Definition projecting_embed_tail_range (D d : nat) (P : list (list F))
+             (Xall : list (list F)) (ids : list nat) : pres (list (list F) * projecting_function) :=
+    match gather_exec Xall ids with
+    | POk Xs => projecting_embed_tail D d P Xs
+    | PDim a b c => PDim a b c
+    end.
+
+  (* ---------------- project() computed block by block ---------------- *)
+  (* a rewrite of the loop of project() that handles the samples in consecutive blocks
+     (any block sizes; e.g. to turn the work into matrix-matrix products) *)
+  Fixpoint project_blocks (D d : nat) (P : list (list F)) (m : list F) (blocks : list (list (list F)))
+    : pres (list (list F)) :=
+    match blocks with
+    | [] => POk []
+    | b :: r =>
+        match project_rows D d P m b with
+        | PDim a b' c => PDim a b' c
+        | POk rows =>
+            match project_blocks D d P m r with
+            | POk rest => POk (rows ++ rest)
+            | PDim a b' c => PDim a b' c
+            end
+        end
+    end.
+
+  (* scaling of lists (used to STATE scale equivariance at the level of the executed loops) *)
+  Definition lscale (s : F) (l : list F) : list F := map (fun a => s * a) l.
+  Definition mlscale (s : F) (L : list (list F)) : list (list F) := map (lscale s) L.
+
   (* tail of embed() of the other fifteen *)
   Definition nonprojecting_embed_tail (embedding : list (list F))
     : pres (list (list F) * projecting_function) :=
